@@ -10,10 +10,12 @@
    the values requested for the end position last (insert_spec), for any number of requests, repeated and unsorted
    positions included; C13_insert_flat lifts it to the array operation (the request list being what broadcasting the
    position list against the flattened values yields; that broadcast itself is C03).
-   NOT YET PROVED (exhaustively checked by the correspondence run incl. insert-then-delete round trips executed on
-   the implementation): insert along an axis and the per-index repeat statement. *)
+   REPEAT along an axis (rank >= 2): C13_repeat_axis — the result's axis has the sum of the counts as its length and
+   its entry k repeats the input's entry src reps k (src walks the counts), everything else unchanged.
+   NOT YET PROVED (checked by the correspondence run): insert along an axis; repeat with no axis (flat) and on rank-1
+   arrays as array-level statements. *)
 From Coq Require Import Sorted.
-From ArrRs Require Import Index Axis Axis_proofs Broadcast_proofs Reduce Along_proofs Edit Edit_proofs Delete_proofs Broadcast Insert_proofs.
+From ArrRs Require Import Index Axis Axis_proofs Broadcast_proofs Reduce Along_proofs Edit Edit_proofs Delete_proofs Broadcast Insert_proofs Repeat_proofs.
 
 Theorem C13_trim : forall (A : Type) (p : A -> bool) l,
   let t := drop_while p (rev (drop_while p (rev l))) in
@@ -94,6 +96,25 @@ Example C13_insert_nonvacuous :
   insert_spec 0%Z [0;1;2;3]%Z [(1,10%Z); (4,12%Z); (1,11%Z)] = [0;10;11;1;2;3;12]%Z /\
   insert_back [0;1;2;3]%Z (sort_pairs [(1,10%Z); (4,12%Z); (1,11%Z)]) = Ok [0;10;11;1;2;3;12]%Z.
 Proof. split; vm_compute; reflexivity. Qed.
+
+(* repeat *)
+Theorem C13_src_def : forall r t k, src (r :: t) k = if k <? r then 0 else S (src t (k - r)).
+Proof. reflexivity. Qed.
+
+Theorem C13_repeat_axis : forall (T : Type) (d : T) (a : arr T) repeats ax rb,
+  wf a -> pos_shape (shape a) -> 2 <= ndim a -> ax < ndim a -> (Z.of_nat (ndim a) < two64)%Z ->
+  broadcast_to 0 (mk repeats [length repeats]) [nth ax (shape a) 0] = Ok rb ->
+  length (elems rb) = nth ax (shape a) 0 ->
+  let reps := elems rb in
+  exists R, repeat_arr d a repeats (Some ax) = Ok R /\ wf R /\
+    shape R = upd (shape a) ax (fold_left Nat.add reps 0) /\
+    forall c, in_range (shape R) c -> get d R c = get d a (upd c ax (src reps (nth ax c 0))).
+Proof. exact @repeat_axis_spec. Qed.
+
+Example C13_repeat_nonvacuous :
+  map (src [2;0;1]) [0;1;2] = [0;0;2] /\
+  broadcast_to 0 (mk [2;0;1] [3]) [3] = Ok (mk [2;0;1] [3]) /\ broadcast_to 0 (mk [2] [1]) [3] = Ok (mk [2;2;2] [3]).
+Proof. repeat split; vm_compute; reflexivity. Qed.
 
 Example C13_nonvacuous :
   delete 0%Z (mk [0;1;2;3;4;5]%Z [6]) [4;1;4] None = Ok (mk [0;2;3;5]%Z [4]) /\
